@@ -8,6 +8,7 @@ Local Open Scope list_scope.
 Section P.
   Variable V : Type.
   Variable bin : binop -> V -> V -> V.
+  Variable un : unop -> V -> V.
   Notation node := (node V).
   Notation ival := (ival V).
 
@@ -18,6 +19,7 @@ Section P.
     Hypothesis Hconst : forall v, P (NConst v).
     Hypothesis Htuple : forall ms, Forall (fun m => P (snd (snd m))) ms -> P (NTuple ms).
     Hypothesis Hbin : forall o ln rn l r, P l -> P r -> P (NBin o ln rn l r).
+    Hypothesis Hun : forall o nm c, P c -> P (NUn o nm c).
     Hypothesis Hmodel : forall cls ctor attrs, Forall (fun a => P (snd a)) attrs -> P (NModel cls ctor attrs).
     Hypothesis Hcoll : forall attrs, Forall (fun a => P (snd a)) attrs -> P (NColl attrs).
 
@@ -32,6 +34,7 @@ Section P.
                         | m :: ms' => Forall_cons m (node_ind' (snd (snd m))) (go ms')
                         end) ms)
       | NBin o ln rn l r => Hbin o ln rn l r (node_ind' l) (node_ind' r)
+      | NUn o nm c => Hun o nm c (node_ind' c)
       | NModel cls ctor attrs =>
           Hmodel cls ctor attrs ((fix go (a : list (string * node)) : Forall (fun a => P (snd a)) a :=
                                     match a with
@@ -83,8 +86,8 @@ Section P.
     (fix go (a : list (string * node)) : list (string * ival) :=
        match a with
        | [] => []
-       | (k, c) :: a' => (k, inst V bin args c) :: go a'
-       end) attrs = map (fun kv => (fst kv, inst V bin args (snd kv))) attrs.
+       | (k, c) :: a' => (k, inst V bin un args c) :: go a'
+       end) attrs = map (fun kv => (fst kv, inst V bin un args (snd kv))) attrs.
   Proof. induction attrs as [|[k c] a IH]; simpl; [reflexivity|]. rewrite IH. reflexivity. Qed.
 
   (* ---------- structural paths: through Model / Collection attributes only ---------- *)
@@ -130,18 +133,18 @@ Section P.
 
   (* placement: whatever sits at a structural path of the model is what the instance holds there *)
   Lemma lookup_inst (args : nat -> option V) (p : path) : forall (n c : node),
-    node_at p n = Some c -> lookup V p (inst V bin args n) = Some (inst V bin args c).
+    node_at p n = Some c -> lookup V p (inst V bin un args n) = Some (inst V bin un args c).
   Proof.
     induction p as [|k p IH]; intros n c H.
     - simpl in H. inversion H; subst. reflexivity.
-    - destruct n as [q|v|ms|o ln rn l r|cls ctor attrs|attrs]; simpl in H; try discriminate.
+    - destruct n as [q|v|ms|o ln rn l r|uo unm uc|cls ctor attrs|attrs]; simpl in H; try discriminate.
       + destruct (assoc k attrs) as [c'|] eqn:A; [|discriminate].
         cbn [inst lookup]. rewrite inst_attrs_map.
-        rewrite (assoc_ctor_extras ctor _ k (inst V bin args c')).
+        rewrite (assoc_ctor_extras ctor _ k (inst V bin un args c')).
         * apply IH. exact H.
-        * rewrite (assoc_map_snd (inst V bin args)). rewrite A. reflexivity.
+        * rewrite (assoc_map_snd (inst V bin un args)). rewrite A. reflexivity.
       + destruct (assoc k attrs) as [c'|] eqn:A; [|discriminate].
         cbn [inst lookup]. rewrite inst_attrs_map.
-        rewrite (assoc_map_snd (inst V bin args)). rewrite A. simpl. apply IH. exact H.
+        rewrite (assoc_map_snd (inst V bin un args)). rewrite A. simpl. apply IH. exact H.
   Qed.
 End P.
